@@ -153,8 +153,9 @@ pub fn gen_string(t: &mut Tape, sw: &GdsSwarm) -> String {
                     s.push(c);
                 }
             }
-            // GDSII cannot tell a trailing NUL from padding: never end in NUL
-            if s.ends_with('\0') {
+            // GDSII cannot tell a trailing NUL from padding when the byte length is even; a string of odd byte length
+            // that ends in NUL is padded with a second one, of which exactly one is stripped again: those are kept
+            if s.ends_with('\0') && s.len() % 2 == 0 {
                 s.pop();
                 s.push('q');
             }
@@ -376,7 +377,12 @@ pub fn gen_lib(t: &mut Tape, profile: StrProfile) -> (GdsLibrary, GdsSwarm) {
         let dates = gen_dates(t);
         let mut elems = Vec::new();
         for _ in 0..nel {
-            elems.push(gen_elem(t, &sw, &names));
+            let e = gen_elem(t, &sw, &names);
+            // one element in 10 is followed by an identical twin (two equal references or shapes in a row)
+            if t.chance(1, 10) {
+                elems.push(e.clone());
+            }
+            elems.push(e);
         }
         // one library in 250: "wide" content in its first struct - hundreds to thousands of elements and hundreds of
         // properties on one of them - built by repeating the drawn elements (no further draws, so tapes stay short);
